@@ -8,6 +8,7 @@ import Dmn.Lemmas.DrgContext
 import Dmn.Lemmas.DrgBuild
 import Dmn.Lemmas.DrgDfs
 import Dmn.Lemmas.DrgTable
+import Dmn.Lemmas.DrgScope
 import Dmn.Props.C03
 import Dmn.Props.C11
 import Dmn.Lemmas.EvalM
@@ -595,5 +596,34 @@ example :
   split
   · omega
   · split <;> omega
+
+/-! ## boxed contexts compose: their entries are local (repair of finding F62-nested-context-entries) -/
+
+/-- **The entries of a boxed context are visible inside that context only.**  Any boxed expression —
+literal expression, context, invocation, function definition, relation, decision table, nested in any
+way — evaluated at any level of the requirement graph leaves the scope it runs in exactly as it found
+it: after a nested boxed context every name of the enclosing scope (an input, a required decision's
+variable, an earlier entry of the enclosing context) is bound to the value it had before, whatever the
+nested context called its own entries.  (`build_context_evaluator` pushes a context for the entries and
+pops it on both ways out, `mod.rs:293-324`; before the repair the entries were written into the
+enclosing context and stayed there.) -/
+theorem boxed_context_entries_local (base : Env) (g : Drg) (G ff : Nat) (a : Ast) (s : Scope)
+    (v : Value) (s' : Scope) (h : evalBoxed (level base g G ff).env a s = .ok (v, s')) : s' = s :=
+  pres_evalBoxed _ (topOnly_level_call base g G ff) a s v s' h
+
+/-- the decision logic `{inner: {a: 1, <result> a + 1}, outer: a}` -/
+def nestedContextWitness : Ast :=
+  Boxed.context [
+    .contextEntry (.contextEntryKey "inner") (Boxed.context [
+      .contextEntry (.contextEntryKey "a") (.numeric "1" ""),
+      .add (.name "a") (.numeric "1" "")]),
+    .contextEntry (.contextEntryKey "outer") (.name "a")]
+
+-- Non-vacuity, and the witness of the finding: with the input `a = 10` the value is `{inner: 2, outer: 10}`
+-- (the unrepaired code answered `outer: 1`), and the scope is the decision's context as before.
+example :
+    evalBoxed witnessBase nestedContextWitness [[("a", .num ⟨false, 10, 0⟩)]] =
+      .ok (.ctx [("inner", .num ⟨false, 2, 0⟩), ("outer", .num ⟨false, 10, 0⟩)], [[("a", .num ⟨false, 10, 0⟩)]]) := by
+  rfl
 
 end Dmn.Drg
